@@ -29,7 +29,7 @@ OUT_OF_SCOPE = {"xgi.drawing.draw:draw_directed_dyads": "not among the functions
 def run(ctx):
     repo = ctx.repo
     res = Result(PROP)
-    res.rules = ["K1", "K2", "K5", "L-KEYS", "L-ORDER", "L-RANGE", "L-CUT", "L-FACEID", "L-FLOW"]
+    res.rules = ["K1", "K2", "K5", "L-KEYS", "L-ORDER", "L-RANGE", "L-CUT", "L-FACEID", "L-FLOW", "L-POLY"]
     res.explanation = (
         "Narrow claim: kind inference (labels vs positions) over the layout and drawing modules, key provenance of the "
         "dict every layout returns, and agreement of the permutation applied to per-edge style arrays and patches. "
@@ -55,6 +55,7 @@ def run(ctx):
     check_order(repo, res)
     check_range(repo, res, fns)
     check_cut(repo, res)
+    check_polygons(repo, res)
     from .common import check_dead_params
 
     nd = check_dead_params(res, PROP, "L-FLOW", [f for f in fns if f.module.name.endswith(".layout")], "the positions returned")
@@ -66,6 +67,90 @@ def run(ctx):
                  lambda nd: f"`{unparse(nd, 60)}` de-duplicates faces by the tuples a combinations-style enumeration yields; a two-node face shared by two simplices can come out as (a, b) from one and (b, a) from the other, survives twice and is drawn as two lines (one line per two-node simplex is lost)",
                  "raw combination tuples used as identities")
     return res
+
+
+def check_polygons(repo, res):
+    """L-POLY: outside hull mode the polygon of an edge is made from ALL its members' positions (re-ordered, not selected).
+    A polygon whose vertex array is selected through a convex hull (`points[ConvexHull(points).vertices]`) loses every
+    member that lies inside the hull of the others.  Decided on the definitions that can reach the Polygon(...) call on a
+    path where `hull` is false."""
+    mi = repo.modules.get("xgi.drawing.draw")
+    if mi is None:
+        raise AnalysisError("xgi.drawing.draw not found (anchor vanished)")
+    n = 0
+    for fn in mi.functions.values():
+        calls = [c for c in ast.walk(fn.node) if isinstance(c, ast.Call) and getattr(c.func, "attr", getattr(c.func, "id", None)) == "Polygon" and c.args]
+        if not calls:
+            continue
+        par = {}
+        for p in ast.walk(fn.node):
+            for ch in ast.iter_child_nodes(p):
+                par[ch] = p
+
+        def hull_mode(node):
+            """True / False when the node only runs in hull mode / only outside it; None when unconditional"""
+            child, p = node, par.get(node)
+            while p is not None:
+                if isinstance(p, (ast.If, ast.IfExp)):
+                    t = p.test
+                    neg = isinstance(t, ast.UnaryOp) and isinstance(t.op, ast.Not)
+                    core = t.operand if neg else t
+                    if isinstance(core, ast.Name) and core.id == "hull":
+                        body = p.body if isinstance(p.body, list) else [p.body]
+                        orelse = p.orelse if isinstance(p.orelse, list) else [p.orelse]
+                        if any(child is b for b in body):
+                            return not neg
+                        if any(child is b for b in orelse):
+                            return neg
+                child, p = p, par.get(p)
+            return None
+
+        defs = {}
+        for st in ast.walk(fn.node):
+            if isinstance(st, ast.Assign):
+                for t in st.targets:
+                    for x in ast.walk(t):
+                        if isinstance(x, ast.Name):
+                            defs.setdefault(x.id, []).append(st)
+
+        def selects(e, seen=()):
+            """does the value of e (outside hull mode) go through a hull-vertex selection?"""
+            def walk_off_hull(node):
+                """sub-expressions evaluated when `hull` is false"""
+                if isinstance(node, ast.IfExp):
+                    t = node.test
+                    neg = isinstance(t, ast.UnaryOp) and isinstance(t.op, ast.Not)
+                    core = t.operand if neg else t
+                    if isinstance(core, ast.Name) and core.id == "hull":
+                        yield from walk_off_hull(node.body if neg else node.orelse)
+                        return
+                yield node
+                for ch in ast.iter_child_nodes(node):
+                    yield from walk_off_hull(ch)
+
+            for x in walk_off_hull(e):
+                if isinstance(x, ast.Call) and getattr(x.func, "id", getattr(x.func, "attr", None)) == "ConvexHull":
+                    return x
+                if isinstance(x, ast.Attribute) and x.attr in ("vertices", "simplices"):
+                    return x
+                if isinstance(x, ast.Name) and isinstance(x.ctx, ast.Load) and x.id not in seen:
+                    for d in defs.get(x.id, []):
+                        if hull_mode(d) is True:
+                            continue
+                        r = selects(d.value, seen + (x.id,))
+                        if r is not None:
+                            return r
+            return None
+
+        for c in calls:
+            if hull_mode(c) is True:
+                continue
+            n += 1
+            hit = selects(c.args[0])
+            res.inst("L-POLY", f"{fn.qualname}:{c.lineno} `{unparse(c, 40)}` outside hull mode is built from all member positions", hit is None)
+            if hit is not None:
+                res.add(mk_finding(PROP, "L-POLY", fn, c, f"{fn.qualname}: outside hull mode the polygon `{unparse(c, 40)}` takes its vertices through `{unparse(hit, 40)}`; a member whose position lies inside the convex hull of the other members is not a vertex of the polygon, so the polygon's vertex set is no longer exactly the members' positions", role="polygon"))
+    res.floor("polygon constructions outside hull mode", n, 1)
 
 
 def check_cut(repo, res):
